@@ -266,6 +266,13 @@ def nack_table(res, I, rep, nd, inp, LEN, syms, wk, bk):
     return n_dec
 
 
+def _module(d):
+    """module path of a def path such as `<feedback::nack::X<'a> as Trait>::next` or `feedback::nack::helper`"""
+    import re
+    m = re.search(r"([a-z_][a-z0-9_]*(?:::[a-z_][a-z0-9_]*)*)::[A-Za-z]", d.lstrip("<"))
+    return m.group(1) if m else d
+
+
 def scan_complete(res, I, nd, inp, syms, wk="i", bk="mask_i"):
     """No set bit is skipped: every step of the bit scan that does not yield leaves the word index alone, advances the
     bit index by exactly one and has tested the bit it leaves (index mask_i - 1) as clear — on the steps that repeat the
@@ -273,7 +280,8 @@ def scan_complete(res, I, nd, inp, syms, wk="i", bk="mask_i"):
     of "between two yields of one word every bit was tested clear"."""
     n = 0
     for lr in I.loop_reports:
-        if lr.fn != nd or lr.kind != "loop":
+        # the scan loop may live in next() itself or in a private helper of the same module that next() calls
+        if lr.kind != "loop" or not (lr.fn == nd or _module(lr.fn) == _module(nd)):
             continue
         mk = [a for a, init in lr.carried if init == Lin.atom(syms[bk])]
         ik = [a for a, init in lr.carried if init == Lin.atom(syms[wk])]
